@@ -7,7 +7,7 @@ import json
 import drive
 import p_schema as PS
 
-LEAN_TARGETS = ["Verif.Props.C17", "Verif.Props.Ties"]
+LEAN_TARGETS = ["Verif.Props.C17", "Verif.Props.Ties", "Verif.Props.TiesSchema"]
 LEVEL = "proof"
 ASSUMPTIONS = [
     "the reference is a generator over (definition, layout) that walks the RFC 4512 grammars — every WSP/SP count, bare vs parenthesised lists, "
@@ -36,6 +36,53 @@ def total(kind, text):
         return None, "ValueError"
     except BaseException as e:  # noqa: BLE001
         return {"key": None, "what": f"from_string raised {type(e).__name__} (neither a definition nor ValueError)", "kind": kind, "text": text}, "other"
+
+
+GROUP_PATTERNS = {"oc": "schema_OBJECT_CLASS_DESCRIPTION", "at": "schema_ATTRIBUTE_TYPE_DESCRIPTION", "dcr": "schema_DIT_CONTENT_RULE_DESCRIPTION",
+                  "noidlen": "schema_NOIDLEN_MATCH"}
+FLAG_GROUPS = {"obsolete", "single_value", "collective", "no_user_modification"}
+
+
+def group_tie(ctx, texts, hist):
+    """three-way comparison on the `PATTERN.match` step alone: CPython's engine on the compiled pattern, the translated pattern under the
+    capture-aware Lean semantics (Re.matchG), and the model's scanner (matchOC / matchAT / matchDCR / noidlenMatch)"""
+    import re
+
+    import translate_re as TR
+
+    pats = {name: re.compile(pat, flags) for name, pat, flags in TR.capture()}
+    out = []
+    reqs, meta = [], []
+    for kind, text in texts:
+        name = GROUP_PATTERNS[kind]
+        if name not in pats:
+            continue
+        m = pats[name].match(text)
+        py = None if m is None else {k: (None if v is None else PS.cps(v)) for k, v in m.groupdict().items() if k != "xstring"}
+        reqs.append({"op": "rematchg", "name": name, "cps": PS.cps(text)})
+        reqs.append({"op": "schemamatch", "kind": kind, "cps": PS.cps(text)})
+        meta.append((kind, text, py))
+        hist["grouptie:" + kind + (":match" if m else ":nomatch")] += 1
+    if not reqs:
+        return out, 0
+    got = drive.run_model(reqs)
+    for i, (kind, text, py) in enumerate(meta):
+        rg, sm = got[2 * i], got[2 * i + 1]
+        lean_re = None if rg.get("end") is None else {k: v for k, v in (rg.get("groups") or {}).items() if k != "xstring"}
+        scan = sm.get("groups")
+
+        def flags(d):
+            return None if d is None else {k: ((v is not None and v is not False) if k in FLAG_GROUPS else v) for k, v in d.items()}
+
+        if flags(py) != flags(lean_re):
+            out.append({"what": "the translated pattern (Lean semantics with captures) and CPython's re disagree on match()/groups", "kind": kind,
+                        "text": text[:300], "python": py, "lean_pattern": lean_re})
+        elif flags(lean_re) != flags(scan):
+            out.append({"what": "the model's scanner and the compiled pattern disagree on match()/groups (tie theorem of Props/TiesSchema is false here)",
+                        "kind": kind, "text": text[:300], "pattern": lean_re, "scanner": scan})
+        if len(out) > 10:
+            break
+    return out, len(meta)
 
 
 def run(ctx):
@@ -74,20 +121,29 @@ def run(ctx):
     for kind, text in texts[: ctx.scale(4000, 40000)]:
         reqs.append({"op": "sparse", "kind": kind, "cps": PS.cps(text)})
     disagreements = []
+    n_tie = 0
     if ctx.driver_ok:
         bad, a, b = drive.correspond(reqs)
         for i, q, x, y in bad[:20]:
             disagreements.append({"request": {"op": "sparse", "kind": q["kind"], "text": PS.uncps(q["cps"])[:300]}, "impl": x, "model": y})
+        tie_texts = [(k, t) for k, d, t in cases[: ctx.scale(600, 12000)]] + texts[: ctx.scale(2500, 40000)]
+        for _ in range(ctx.scale(300, 6000)):
+            tie_texts.append(("noidlen", PS.g_numericoid(rng) + rng.choice(["{5}", "{05}", "{", "", "{12}x", "{0}", "{10}", "}", "{1}{2}"])))
+            tie_texts.append(("noidlen", "".join(rng.choice("0123.{}a ") for _ in range(rng.randrange(0, 9)))))
+        tie_texts = [(k, t) for k, t in tie_texts if len(t) < 400]
+        tie_bad, n_tie = group_tie(ctx, tie_texts, hist)
+        disagreements += tie_bad
     return {
         "evaluations": len(cases) + len(texts),
         "distinct_nontrivial": len(distinct),
         "rule": "grammar clause: sentences rendered from generated definitions with random layout (every WSP 0-4 / SP 1-3, bare vs parenthesised singleton "
                 "lists, escape case, X-/x-, optional explicit STRUCTURAL / userApplications, quoted SYNTAX) must parse to their definition; totality clause: "
                 "fixed corner cases, single-character edits of sentences and random strings must give a definition or ValueError; all inputs are also "
-                "parsed by the Lean model (scanner) and results compared; distinct = distinct (type, string)",
+                "parsed by the Lean model (scanner) and results compared; the match step alone is compared three ways (CPython re / translated pattern with "
+                "captures / scanner) on every named group; distinct = distinct (type, string)",
         "samples": [{"kind": cases[0][0], "sentence": cases[0][2]}, {"kind": texts[-1][0], "text": texts[-1][1]}],
         "histogram": dict(sorted(hist.items())),
-        "requests": len(reqs),
+        "requests": len(reqs) + 2 * n_tie,
         "violations": violations,
         "disagreements": disagreements,
     }
